@@ -178,7 +178,7 @@ def clone_checks(rng, violations, vals, metas):
 def run(tier, seed):
     import torch, fggs
     rng = random.Random(seed)
-    n = int(os.environ.get("VERIF_N", 0)) or (24 if tier == "quick" else 300)
+    n = int(os.environ.get("VERIF_N", 0)) or (24 if tier == "quick" else 2500)
     violations = []; vals = []; metas = []; distinct = set(); hist = {}
     for i in range(n):
         recursive = (i % 3 == 0)
